@@ -455,13 +455,17 @@ func checkC02(c *Ctx) {
 			c.check(okArgs, "C02-ORD", "CallExprInstr.Execute", "passes the argument expressions on", f.Pos(), "CallResolved receives the unevaluated argument list", "CallResolved is not given the argument list")
 		}
 	}
-	if f := c.mustFn("C02-ORD", "Zlisp.CallResolved"); f != nil && len(f.AnonFuncs) == 1 {
-		prep := f.AnonFuncs[0]
+	if f := c.mustFn("C02-ORD", "Zlisp.CallResolved"); f != nil {
+		wrappers, direct := c.argPreparers(f)
+		isPrep := map[*ssa.Function]bool{}
+		for _, g := range append(append([]*ssa.Function{}, wrappers...), direct...) {
+			isPrep[g] = true
+		}
 		cf := c.fn("Zlisp.CallFunction")
 		cu := c.fn("Zlisp.CallUserFunction")
 		var preps []ssa.Instruction
 		eachInstr(f, func(b *ssa.BasicBlock, i int, in ssa.Instruction) {
-			if call, ok := in.(*ssa.Call); ok && call.Call.StaticCallee() == prep {
+			if call, ok := in.(*ssa.Call); ok && call.Call.StaticCallee() != nil && isPrep[call.Call.StaticCallee()] {
 				preps = append(preps, in)
 			}
 		})
@@ -484,7 +488,13 @@ func checkC02(c *Ctx) {
 		c.check(okAll && n >= 4, "C02-ORD", "Zlisp.CallResolved", "arguments marshalled before the call", f.Pos(), "every call of a function is dominated by the argument preparation", "a function is entered before its arguments are evaluated and pushed")
 		// prepare delegates to PrepareCallExprArgs, which ranges over args (ascending) — see C16-SITES for the once-per-position rule
 		pcea := c.fn("Zlisp.PrepareCallExprArgs")
-		c.check(pcea != nil && len(callsOf(prep, pcea)) == 1, "C02-ORD", "Zlisp.CallResolved$1", "uses PrepareCallExprArgs", prep.Pos(), "arguments are evaluated by the one marshalling routine", "argument preparation no longer goes through PrepareCallExprArgs")
+		okOne := pcea != nil && len(wrappers)+len(direct) > 0
+		for _, w := range wrappers {
+			if len(callsOf(w, pcea)) != 1 {
+				okOne = false
+			}
+		}
+		c.check(okOne, "C02-ORD", "Zlisp.CallResolved", "uses PrepareCallExprArgs", f.Pos(), "arguments are evaluated by the one marshalling routine", "argument preparation no longer goes through PrepareCallExprArgs")
 	}
 	if f := c.mustFn("C02-ORD", "Zlisp.PrepareCallExprArgs"); f != nil {
 		// ascending order: a range loop over args whose index feeds nothing but IsLazyCallArg; one push per iteration on every non-error path
